@@ -8,7 +8,7 @@ from props import c09, c10, nncommon as nn
 RULE = ("cases = random conjunctive provenance hypergraphs (2-5 units, 1-5 rows: shared units, rows needing several "
         "units, units owning several rows, units owning no row; also one-unit-per-row and map/fork shapes routed "
         "through the ADD path by K>1), K in 1..3 incl. K larger than the number of rows, 1-3 classes, 1-2 validation "
-        "points, DISTINCT distances per point, generated utility tables and null vectors: "
+        "points, DISTINCT distances per point (a quarter of the cases at magnitude 2^27 with unit gaps: distinct in double precision only), generated utility tables and null vectors: "
         "ShapleyImportance('neighbor', nn_k=K) vs the loop model over the counting specification and vs the Shapley "
         "value by definition of the KNN game, inside Coq; plus, for the real accuracy utility, equality with "
         "'bruteforce' over KNeighborsClassifier(K); the diagram and row locations compile() returns for the instance are "
@@ -36,7 +36,7 @@ def rand_case(rng, n=None, K=None, C=None, shape=None, big=False):
         rows = [[rng.randrange(n)] for _ in range(rng.randint(n, n + 2))]
     else:
         rows = [sorted(rng.sample(range(n), rng.randint(1, min(3, n)))) for _ in range(rng.randint(1, 5 if big else 4))]
-    C = C or rng.randint(1, 3 if big else 2)
+    C = C or rng.choice([1, 2, 2, 3, 3] if big else [1, 2, 2, 2])
     labels = [rng.randrange(C) for _ in range(len(rows))]
     for cl in range(min(C, len(rows))):
         labels[cl] = cl
@@ -44,10 +44,16 @@ def rand_case(rng, n=None, K=None, C=None, shape=None, big=False):
     labels = [sorted(set(labels)).index(l) for l in labels]
     T = rng.randint(1, 2)
     dists = [rng.sample(range(1, 30), len(rows)) for _ in range(T)]
+    if rng.random() < 0.25:
+        # large magnitudes: distinct as binary64 values, closer together than binary32 spacing (2^27 + small integers)
+        dists = [[134217728 + x for x in d] for d in dists]
     den = rng.choice([1, 2, 4])
     U = [[rng.randint(-4, 4) / den for _ in range(C)] for _ in range(T)]
+    for col in U:                      # class utilities within a validation point are not all equal
+        if C >= 2 and len(set(col)) == 1:
+            col[0] += 1.0
     nulls = [rng.randint(-4, 4) / den for _ in range(T)]
-    K = K or rng.choice([1, 2, 2, 3] if big else [1, 2, 2])
+    K = K or min(rng.choice([1, 2, 2, 3] if big else [1, 2, 2]), len(rows))
     if rng.random() < 0.12:
         K = len(rows) + 1                    # more neighbours than rows: every coalition is worth the null value
     return {"n": n, "rows": rows, "labels": labels, "dists": dists, "U": U, "nulls": nulls, "K": K, "C": C,
